@@ -407,6 +407,67 @@ def text_case(ctx, idx, res):
         d.call(cmd='tdel', t=t)
 
 
+NODESET_EXPRS = ['//*|//@*', '//@*|//*', '//node()|//@*', '//*[@*]|//*/@*[1]', '//@*[1]|//*', '(//@*)[last()]|(//*)[last()]', '//@*/..|//@*', '//text()|//@*|//comment()|//processing-instruction()',
+                 '(//*|//@*)[position() mod 3 = 0]', '(//@*|//*)[last()]', '//*/@*[last()]|//*', '/|//@*|/*', '(//*)[2]/descendant-or-self::*|(//*)[2]/descendant-or-self::*/@*']
+NODESET_LOCAL = ['.|@*', '@*|.', 'ancestor-or-self::*|@*', '@*|node()', '@*[1]|.', '.|@*[last()]', 'following::node()|@*|.', 'preceding::*|ancestor::*|@*', '*|*/@*', '..|.|@*', '(.|@*)[1]', '(.|@*)[2]', '(.|@*)[last()]',
+                 'descendant-or-self::*/@*|descendant-or-self::*']
+NODESET_ATTR = ['..|.', '.|..', '../@*|..', '.|../node()', '..|.|../@*[last()]', 'ancestor::*|.', '(..|.)[1]', '(..|.)[last()]', '../following::*|.|..']
+
+
+def nodeset_case(ctx, idx, res):
+    """node-sets that merge elements with their own attributes (and text, comments, roots) into one list in document order: the place where the
+    numbering a source form gives its nodes shows.  Each form is compared with the stream form, and the counts with the relation
+    count(A|B) = count(A) + count(B) for disjoint A and B, which needs no reference."""
+    r = rng_for(ctx.seed, 'c05n', idx)
+    d = ctx.drv('plain')
+    xml, info = gen_xml.gen_doc(r, size=r.choice([6, 12, 25, 40]))
+    ident = '<n k="{count(self::*)}{count(self::text())}{count(self::comment())}{count(self::processing-instruction())}" nm="{name()}" a="{count(ancestor::node())}" p="{count(preceding::node())}" v="{substring(., 1, 6)}"/>'
+    body = ['<s e="{count(//*)}" a="{count(//@*)}" u="{count(//*|//@*)}" u2="{count(//@*|//*)}" n="{count(//node())}" un="{count(//node()|//@*)}"/>']
+    for i, e in enumerate(r.sample(NODESET_EXPRS, 5)):
+        body.append('<e i="g%d" c="{count(%s)}"><xsl:for-each select="%s">%s</xsl:for-each></e>' % (i, e, e, ident))
+    loc = r.sample(NODESET_LOCAL, 4)
+    body.append('<xsl:for-each select="(//*)[position() &lt; 9]"><l>' + ''.join('<e i="l%d" c="{count(%s)}" own="{count(@*) + 1}"><xsl:for-each select="%s">%s</xsl:for-each></e>' % (i, e, e, ident) for i, e in enumerate(loc)) + '</l></xsl:for-each>')
+    att = r.sample(NODESET_ATTR, 3)
+    body.append('<xsl:for-each select="(//@*)[position() &lt; 9]"><l>' + ''.join('<e i="a%d" c="{count(%s)}"><xsl:for-each select="%s">%s</xsl:for-each></e>' % (i, e, e, ident) for i, e in enumerate(att)) + '</l></xsl:for-each>')
+    xsl = (gen_xslt.HEAD % '') + '<xsl:template match="/"><out>' + ''.join(body) + '</out></xsl:template></xsl:stylesheet>'
+    payload = {'stylesheet': xsl, 'document': xml}
+    res.sig = ('nodeset-family', tuple(loc[:2]))
+    t = d.call(cmd='tnew')['t'].decode()
+
+    def relation(out, form):
+        m = re.search(rb'<s e="(\d+)" a="(\d+)" u="(\d+)" u2="(\d+)" n="(\d+)" un="(\d+)"', out)
+        if not m:
+            return
+        e, a, u, u2, n, un = [int(x) for x in m.groups()]
+        if u != e + a or u2 != e + a or un != n + a:
+            res.viol('nodeset|count|src=%s' % ('xerces-backed' if form in ('parsedx', 'xerceswrap') else 'native'),
+                     'source supplied as %s: count(//*)=%d, count(//@*)=%d, but count(//*|//@*)=%d, count(//@*|//*)=%d; count(//node())=%d but count(//node()|//@*)=%d' % (form, e, a, u, u2, n, un), dict(payload, form=form))
+        else:
+            res.count('nodeset_union_counts_add_up')
+    try:
+        base = d.call(cmd='transform', t=t, src='stream', sty='stream', tgt='stream', xml=xml.encode('utf-8'), xsl=xsl.encode())
+        if base.get('status') != b'0':
+            res.viol('nodeset|status|src=stream', 'the stream form fails: %r' % base.get('err', b'')[:200], payload)
+            return
+        relation(base.get('out', b''), 'stream')
+        for src in [r.choice(['parsedx', 'xerceswrap'])] + r.sample(['parsed', 'parsedx', 'xerceswrap', 'stwrap', 'builder'], 3):
+            rp = d.call(cmd='transform', t=t, src=src, sty='stream', tgt='stream', xml=xml.encode('utf-8'), xsl=xsl.encode())
+            res.count('nodeset_forms_compared')
+            if rp.get('status') != base.get('status'):
+                res.viol('nodeset|status|src=%s' % src, 'supplied as %s the status is %s (%r), as a stream %s' % (src, rp.get('status'), rp.get('err', b'')[:120], base.get('status')), dict(payload, form=src))
+                continue
+            relation(rp.get('out', b''), src)
+            if rp.get('out') != base.get('out'):
+                a, b = rp.get('out', b''), base.get('out', b'')
+                i = next((j for j in range(min(len(a), len(b))) if a[j] != b[j]), min(len(a), len(b)))
+                res.viol('nodeset|result|src=%s' % ('xerces-backed' if src in ('parsedx', 'xerceswrap') else src),
+                         'a node-set of elements and attributes differs between the source supplied as %s and as a stream, at byte %d: %r instead of %r' % (src, i, a[max(0, i - 120):i + 60], b[max(0, i - 120):i + 60]), dict(payload, form=src))
+            else:
+                res.count('nodeset_equal')
+    finally:
+        d.call(cmd='tdel', t=t)
+
+
 def chunk_case(ctx, idx, res):
     """result-target forms against text and attribute runs whose lengths sit on the internal buffer sizes (100-unit text buffer of the
     source-tree target, 512-unit writer / stream buffers, 8 KB file buffer, callback chunking), incl. multi-unit characters"""
@@ -522,7 +583,8 @@ def main():
     chk.run_cases('c05', 'id_case', range(n // 3))
     chk.run_cases('c05', 'chunk_case', range(n // 3))
     chk.run_cases('c05', 'text_case', range(n // 3))
-    chk.finish(min_nontrivial=60, required_stats=('identical_bytes', 'identical_trees', 'both_fail', 'form_capi', 'form_cli', 'form_src_builder', 'form_src_xerceswrap', 'form_tgt_callback', 'form_sty_pi', 'text_forms_matching_the_document', 'text_equal'))
+    chk.run_cases('c05', 'nodeset_case', range(n // 3))
+    chk.finish(min_nontrivial=60, required_stats=('identical_bytes', 'identical_trees', 'both_fail', 'form_capi', 'form_cli', 'form_src_builder', 'form_src_xerceswrap', 'form_tgt_callback', 'form_sty_pi', 'text_forms_matching_the_document', 'text_equal', 'nodeset_equal', 'nodeset_union_counts_add_up'))
 
 
 if __name__ == '__main__':
